@@ -49,8 +49,15 @@ var (
 func Init() *Result {
 	flag.Parse()
 	start = time.Now()
-	return &Result{Exhaustive: true, Counters: map[string]int64{}, Info: map[string]any{}, vkeys: map[string]bool{}}
+	cur = &Result{Exhaustive: true, Counters: map[string]int64{}, Info: map[string]any{}, vkeys: map[string]bool{}}
+	return cur
 }
+
+var (
+	cur       *Result
+	mineCalls int64
+	stopped   bool
+)
 
 func Thorough() bool { return *Tier == "thorough" }
 
@@ -65,7 +72,38 @@ func Deadline() time.Time {
 func Expired() bool { return *Budget != 0 && time.Since(start) > *Budget }
 
 // Mine reports whether work item i belongs to this shard.
-func Mine(i int64) bool { return int(i%int64(*NShards)) == *Shard }
+// Stop is for long inner loops of one work item: it reports (and records) that the internal deadline has passed.
+func Stop() bool {
+	if stopped {
+		return true
+	}
+	mineCalls++
+	if mineCalls&63 == 0 && Expired() && cur != nil {
+		stopped = true
+		cur.Exhaustive = false
+		cur.Info["stopped_at_deadline"] = fmt.Sprintf("the internal deadline of %v passed in the middle of a work item; the rest was not evaluated", *Budget)
+	}
+	return stopped
+}
+
+// Once the internal deadline has passed no further item is taken up: the enumeration runs out without
+// evaluating anything more and the result says exhaustive=false with the number of items left out (an
+// enumeration that is cut short is never reported as complete, and never killed from outside).
+func Mine(i int64) bool {
+	if stopped {
+		cur.Counters["items_not_evaluated_after_deadline"]++
+		return false
+	}
+	mineCalls++
+	if mineCalls&255 == 0 && Expired() && cur != nil {
+		stopped = true
+		cur.Exhaustive = false
+		cur.Info["stopped_at_deadline"] = fmt.Sprintf("the internal deadline of %v passed after %d work items had been looked at; the rest was not evaluated", *Budget, mineCalls)
+		cur.Counters["items_not_evaluated_after_deadline"]++
+		return false
+	}
+	return int(i%int64(*NShards)) == *Shard
+}
 
 func (r *Result) Violate(key, msg string, replay any) {
 	if r.vkeys[key] {
